@@ -725,12 +725,23 @@ class Exec:
             def visit_Call(self, n):
                 fn = n.func
                 if isinstance(fn, ast.Attribute):
+                    rk = ex.static_kind(fn.value)
+                    if rk in ('set', 'list'):
+                        # a builtin container method (not the package method of the same name)
+                        if fn.attr in ('add', 'update', 'remove', 'discard', 'clear', 'pop'):
+                            fields.add('$elems')
+                        if fn.attr in ('append', 'extend'):
+                            fields.update(['$lat', '$llen'])
+                        if fn.attr == 'copy':
+                            fields.update(['$alive', '$elems', '$setrole'])
+                        self.generic_visit(n)
+                        return
                     if fn.attr in ('add', 'update', 'remove', 'discard', 'clear', 'pop'):
                         fields.add('$elems')
                     if fn.attr in ('append', 'extend'):
                         fields.update(['$lat', '$llen'])
                     if fn.attr == 'copy':
-                        fields.update(['$alive', '$elems'])
+                        fields.update(['$alive', '$elems', '$setrole'])
                     for cand in ex.reg.candidates(fn.attr):
                         fields.update(cand._modifies)
                     dotted = ex.dotted(fn)
@@ -740,7 +751,7 @@ class Exec:
                             fields.update(ex.c.rely_fields)
                 elif isinstance(fn, ast.Name):
                     if fn.id in ('set', 'BestSet'):
-                        fields.update(['$alive', '$elems'])
+                        fields.update(['$alive', '$elems', '$setrole'])
                     elif fn.id == 'list':
                         fields.update(['$alive', '$llen', '$lat'])
                     elif fn.id in ('Window', 'DotStyle') or fn.id in EXC_CLASSES:
@@ -754,7 +765,7 @@ class Exec:
                 self.generic_visit(n)
 
             def visit_SetComp(self, n):
-                fields.update(['$alive', '$elems'])
+                fields.update(['$alive', '$elems', '$setrole'])
                 self.generic_visit(n)
 
             def visit_ListComp(self, n):
@@ -762,7 +773,7 @@ class Exec:
                 self.generic_visit(n)
 
             def visit_Set(self, n):
-                fields.update(['$alive', '$elems'])
+                fields.update(['$alive', '$elems', '$setrole'])
                 self.generic_visit(n)
 
             def visit_List(self, n):
@@ -770,6 +781,11 @@ class Exec:
                 self.generic_visit(n)
 
             def visit_Tuple(self, n):
+                self.generic_visit(n)
+
+            def visit_BinOp(self, n):
+                if isinstance(n.op, (ast.BitAnd, ast.BitOr, ast.Sub, ast.Add)):
+                    fields.update(['$alive'])
                 self.generic_visit(n)
 
             def visit_Yield(self, n):
@@ -791,6 +807,16 @@ class Exec:
         for s_ in stmts:
             v.visit(s_)
         return names, fields
+
+    def static_kind(self, e):
+        """kind of an expression when it can be told without evaluating it (a local of known kind, or an
+        attribute whose field kind is declared)"""
+        if isinstance(e, ast.Name):
+            v = self.cur_env.get(e.id)
+            return v.kind if v is not None else None
+        if isinstance(e, ast.Attribute):
+            return L.FIELD_KINDS.get(self.fieldname(e.attr))
+        return None
 
     def await_never_suspends(self, n):
         """an await on a coroutine of the package whose contract was checked to hold no suspension point"""
